@@ -241,6 +241,7 @@ type Exec struct {
 	guards   []guardLevel
 	mlog     []mlogRec
 	pendingEval *smt.Evaluator
+	pcLits   map[*smt.Term]int
 	eval     *smt.Evaluator // model satisfying the current path condition (nil: unknown)
 
 	// per worker
@@ -315,6 +316,7 @@ func (ex *Exec) RunPath(fn *ssa.Function, trail []uint64) (alts [][]uint64) {
 	ex.guards = nil
 	ex.mlog = nil
 	ex.eval = smt.NewEvaluator(map[*smt.Term]uint64{})
+	ex.pcLits = map[*smt.Term]int{}
 	ex.solver.Pop(ex.solver.Depth())
 	ex.stats.Paths++
 	q0, t0 := ex.solver.Queries, ex.solver.Time
@@ -413,11 +415,56 @@ func (ex *Exec) assumeTerm(t *smt.Term) {
 	}
 	ex.pc = append(ex.pc, t)
 	ex.solver.Push(t)
+	ex.notePC(t, len(ex.pc))
 	if ex.eval != nil {
 		if v, ok := ex.eval.Eval(t); !ok || v != 1 {
 			ex.eval = nil
 		}
 	}
+}
+
+// notePC records asserted literals so that a later branch on the very same term is decided
+// without a solver call. Entries carry the pc length at which they were added.
+func (ex *Exec) notePC(t *smt.Term, at int) {
+	if t.Op == smt.OpAnd {
+		for _, a := range t.Args {
+			ex.notePC(a, at)
+		}
+		return
+	}
+	if t.Op == smt.OpNot {
+		ex.pcLits[t.Args[0]] = -at
+		return
+	}
+	ex.pcLits[t] = at
+}
+
+// pcKnows reports whether c is syntactically asserted (1), refuted (-1) or unknown (0).
+func (ex *Exec) pcKnows(c *smt.Term) int {
+	neg := false
+	if c.Op == smt.OpNot {
+		c, neg = c.Args[0], true
+	}
+	v, ok := ex.pcLits[c]
+	if !ok {
+		return 0
+	}
+	at := v
+	if at < 0 {
+		at = -at
+	}
+	if at > len(ex.pc) {
+		delete(ex.pcLits, c) // stale: asserted inside a popped region
+		return 0
+	}
+	r := 1
+	if v < 0 {
+		r = -1
+	}
+	if neg {
+		r = -r
+	}
+	return r
 }
 
 // feasibleM is feasible() that also refreshes the cached model when the answer is sat.
@@ -451,6 +498,12 @@ func (ex *Exec) feasible(t *smt.Term) smt.Result {
 		return smt.Sat
 	}
 	if t.IsFalse() {
+		return smt.Unsat
+	}
+	switch ex.pcKnows(t) {
+	case 1:
+		return smt.Sat
+	case -1:
 		return smt.Unsat
 	}
 	r, err := ex.solver.Check(t)
